@@ -58,6 +58,31 @@ ValidZone(C) ==
             /\ TypesAt(C, n) \subseteq AddrTypes
             /\ \E ns \in RRset(C, c, "NS") : NsTarget(ValOf(ns)) = n
 
+\* what a zone file may hold at ONE owner: a CNAME is alone and single
+\* (RFC 1034 3.6.2), a delegation point holds delegation data and addresses
+\* only (RFC 1034 4.2.1).  A record whose insertion would break this is not
+\* admitted to the zone file (parsed::Zonefile::insert returns an error and the
+\* file stays as it was); a record of another class never is.
+OwnerOK(C, n) ==
+  /\ Cardinality(RRset(C, n, "CNAME")) <= 1
+  /\ RRset(C, n, "CNAME") # {} => TypesAt(C, n) = {"CNAME"}
+  /\ (n # Apex /\ TypesAt(C, n) \cap {"NS", "DS"} # {}) =>
+        TypesAt(C, n) \subseteq {"NS", "DS"} \cup AddrTypes
+Admits(C, r) == OwnerOK(C \cup {r}, OwnerOf(r))
+
+\* ------------------------------------------------- names as the API sees them
+\* Callers hand over ABSOLUTE names (label sequences, leftmost first, root
+\* label implicit) in whatever spelling they have.  Names compare ASCII-case-
+\* insensitively (RFC 1034 3.1, RFC 4343): a name is inside the zone iff the
+\* apex is a suffix of it in that sense, and then it denotes the relative name
+\* left of the apex, lower-cased -- whatever the spelling of either.
+Canon(n) == LowerName(n)
+InZoneAbs(apex, full) == IsSuffixOf(apex, full)
+RelOf(apex, full) == Canon(SubSeq(full, 1, Len(full) - Len(apex)))
+OutOfZone == [out_of_zone |-> TRUE]     \* ReadableZone::query: Err(OutOfZone)
+\* what a server that finds no zone for the name answers (Answer::refused)
+Refused == [rcode |-> "REFUSED", aa |-> FALSE, ans |-> {}, auth |-> {}, add |-> {}]
+
 \* ------------------------------------------------------------------- answers
 Soa(C) == RRset(C, Apex, "SOA")
 
@@ -117,4 +142,9 @@ Answer(C, qn, qt) ==
      ELSE LET w == WildcardAt(ClosestEncloser(C, qn))
           IN IF NameExists(C, w) THEN AtName(C, w, qn, qt)   \* RFC 4592 3.3.1
              ELSE {NxDomain(C)}
+
+\* the answer for a query name as the API receives it: spelled, absolute.
+\* (Owner names in answers are compared case-insensitively by the bindings.)
+AnswerAbs(C, apex, full, qt) ==
+  IF InZoneAbs(apex, full) THEN Answer(C, RelOf(apex, full), qt) ELSE {OutOfZone}
 =============================================================================
